@@ -132,12 +132,13 @@ def well_formed(e, rules=None):
     subs = [x for x in e[1:] if isinstance(x, tuple) and x and isinstance(x[0], str)]
     if not all(well_formed(x, rules) for x in subs):
         return False
+    # Backtrack moves the position backwards: under any loop it can undo the progress of the iteration
     if k == 'rep':
-        return not nullable(e[1], rules)
+        return not nullable(e[1], rules) and not has_bt(e)
     if k == 'skip':
-        return not any(nullable(x, rules) for x in e[1:])
+        return not any(nullable(x, rules) for x in e[1:]) and not has_bt(e)
     if k == 'sep':
-        return not nullable(e[1], rules)
+        return not nullable(e[1], rules) and not has_bt(e)
     return True
 
 
